@@ -232,8 +232,11 @@ def line_obligations(ctx):
     # SFAC numbering in to_shelx_string: atom_sfac = index in the sorted unique atomic numbers + 1 (F: syntactic)
     src = ast.unparse(f_toshelx.node)
     ok = "sfac = list(np.unique(self.site_atoms))" in src and "atom_sfac = [sfac.index(x) + 1 for x in self.site_atoms]" in src and "'SFAC': [Element[x].symbol for x in sfac]" in src
-    ctx.ground("crystal.Crystal.to_shelx_string/sfac_numbering", ok, tag="F", clause="atom lines carry 1-based indices into the SFAC list, which lists the symbols of the sorted unique atomic numbers (the reader uses sfac[idx - 1])",
-               witness=src[:300], fn=f_toshelx)
+    def shelx_fb():
+        r_ = shelx_replay({})
+        return None if not r_["reproduced"] else {"input": r_["native_inputs"], "observed": r_["observed"]}
+    ctx.pattern("crystal.Crystal.to_shelx_string/sfac_numbering", ok, fallback=shelx_fb, clause="atom lines carry 1-based indices into the SFAC list, which lists the symbols of the sorted unique atomic numbers (the reader uses sfac[idx - 1])",
+               fn=f_toshelx)
 
     # POSCAR coordinate / lattice line
     f_poscar = ctx.fn("chmpy.ext.vasp", "poscar_string")
@@ -278,8 +281,11 @@ def line_obligations(ctx):
     # F: POSCAR element blocks: atoms sorted by atomic number, Counter keys in first-occurrence order == block order
     src = ast.unparse(f_poscar.node)
     ok = ("ordering = np.argsort(elements)" in src and "coord = pos[ordering]" in src and "elements = elements[ordering]" in src and "element_counts = Counter(elements)" in src)
-    ctx.ground("ext.vasp.poscar_string/element_blocks", ok, tag="F", clause="coordinates and elements are permuted by the same argsort; the counts line lists the sorted elements' multiplicities in block order",
-               witness=src[:300], fn=f_poscar)
+    def poscar_fb():
+        r_ = poscar_replay({})
+        return None if not r_["reproduced"] else {"input": r_["native_inputs"], "observed": r_["observed"]}
+    ctx.pattern("ext.vasp.poscar_string/element_blocks", ok, fallback=poscar_fb, clause="coordinates and elements are permuted by the same argsort; the counts line lists the sorted elements' multiplicities in block order",
+               fn=f_poscar)
 
 
 def bounded(ctx):
